@@ -6,21 +6,27 @@ extern "C" {
 #endif
 enum { SK_NONE = 0, SK_WOULDBLOCK = 1, SK_SENT = 2, SK_FULL = 3, SK_ZERO = 4, SK_ERROR = 5 };
 enum { SK_EV_OFF = 0, SK_EV_SCRIPT = 1, SK_EV_REAL = 2, SK_EV_TICK = 3 };
+enum { SK_MAXQ = 8 };
+// the scripted answers to the next send calls on client descriptors (one per send, in order)
+struct sk_outcomes { int n; int kind[SK_MAXQ]; long k[SK_MAXQ]; };
 void sk_reset(void);
-void sk_attach(int client_fd, int peer_fd);
-void sk_detach_client(void);
-void sk_set_outcome(int kind, long k);
-void sk_get_outcome(int* kind, long* k);
-void sk_arm_event(int mode, unsigned native);
+void sk_attach(int idx, int client_fd, int peer_fd);      // idx 0 = client A, 1 = client B
+void sk_tag_sends(int on);                                // prefix the send log entries with "A:" / "B:"
+void sk_detach_client(int idx);
+void sk_set_outcome(int kind, long k);                    // exactly one scripted answer (SK_NONE: none)
+void sk_push_outcome(int kind, long k);
+void sk_get_outcomes(struct sk_outcomes* o);
+void sk_put_outcomes(const struct sk_outcomes* o);
+void sk_arm_event(int mode);                              // one scripted poll round for the next run()
+void sk_add_event(int idx, unsigned native);              // SK_EV_SCRIPT: descriptors reported, in this order
 void sk_disarm_event(void);
-void sk_peer_drain(void);
-void sk_peer_close(void);
-size_t sk_take_tx(unsigned char** p);
-size_t sk_take_peer(unsigned char** p);
+void sk_peer_drain(int idx);
+void sk_peer_close(int idx);
+size_t sk_take_tx(int idx, unsigned char** p);
+size_t sk_take_peer(int idx, unsigned char** p);
 const char* sk_take_sendlog(void);
-int sk_registered(void);
-unsigned sk_reg_mask(void);
-int sk_last_real(unsigned* mask);
+int sk_registered(int idx);
+unsigned sk_reg_mask(int idx);
 #ifdef __cplusplus
 }
 #endif
